@@ -56,6 +56,16 @@ fn any_span(n: usize) -> (usize, usize) {
     (s, e)
 }
 
+/// Symbolic valid span including the exhausted form `s == e + 1`.
+#[cfg(kani)]
+#[inline(always)]
+fn any_span_or_done(n: usize) -> (usize, usize) {
+    let s: usize = any();
+    let e: usize = any();
+    assume(e <= n && s <= e + 1);
+    (s, e)
+}
+
 /// C01/C02/C09: one non-overlapping search on the automaton vs the spec.
 #[cfg(kani)]
 pub fn find<C: Case, A: Automaton, const N: usize, const AN: u8>(aut: &A) {
@@ -641,7 +651,9 @@ pub fn reject_fallible<C: Case, const N: usize, const API: u8>(ac: &AhoCorasick)
     let hay: [u8; N] = any();
     let an: bool = any();
     let has_empty = C::NPATS > 0 && C::MINLEN == 0;
-    let inp = Input::new(&hay[..]).anchored(anch(an));
+    // every valid span, including the "done" one with start = end + 1
+    let (s, e) = any_span_or_done(N);
+    let inp = Input::new(&hay[..]).span(s..e).anchored(anch(an));
     let want = rejected(C::SK, C::MK, has_empty, an, API);
     match API {
         API_FIND => {
@@ -703,7 +715,8 @@ pub fn reject_infallible<C: Case, const N: usize, const API: u8, const REJ: bool
     let hay: [u8; N] = any();
     let an: bool = any();
     let has_empty = C::NPATS > 0 && C::MINLEN == 0;
-    let inp = Input::new(&hay[..]).anchored(anch(an));
+    let (s, e) = any_span_or_done(N);
+    let inp = Input::new(&hay[..]).span(s..e).anchored(anch(an));
     assume(rejected(C::SK, C::MK, has_empty, an, if API == API_IS_MATCH { API_FIND } else { API }) == REJ);
     match API {
         API_IS_MATCH => {
@@ -1305,7 +1318,8 @@ pub fn replace_str<C: Case, A: Automaton, const N: usize, const W: usize>(aut: &
     let text = st.unwrap();
     let mut dst = String::with_capacity(W);
     aut.try_replace_all_with(text, &mut dst, |m, _s, dst| {
-        dst.push((b'0' + m.pattern().as_usize() as u8) as char);
+        let tag = [b'0' + m.pattern().as_usize() as u8];
+        dst.push_str(unsafe { core::str::from_utf8_unchecked(&tag) });
         true
     })
     .unwrap();
@@ -1364,28 +1378,46 @@ pub fn replace_str<C: Case, A: Automaton, const N: usize, const W: usize>(aut: &
 // ---------------------------------------------------------------------------
 // C17: purity (sequential histories)
 
-/// A search is unaffected by an arbitrary earlier search on the same value
-/// and gives the same answer on a clone.
+/// A search (any anchoring, accepted or rejected) is unaffected by an
+/// arbitrary earlier search on the same value and gives the same answer on a
+/// clone of the used value.
 #[cfg(kani)]
 pub fn purity<C: Case, A: Automaton + Clone, const N: usize>(aut: &A) {
     let h1: [u8; N] = any();
     let h2: [u8; N] = any();
     let (s1, e1) = any_span(N);
     let (s2, e2) = any_span(N);
-    let fresh = aut.try_find(&Input::new(&h2[..]).span(s2..e2)).unwrap();
+    let a1: bool = any();
+    let a2: bool = any();
+    let key = |r: &Result<Option<Match>, aho_corasick::MatchError>| -> (bool, Option<Match>) {
+        match r {
+            Ok(m) => (true, *m),
+            Err(_) => (false, None),
+        }
+    };
+    let r = aut.try_find(&Input::new(&h2[..]).span(s2..e2).anchored(anch(a2)));
+    let fresh = key(&r);
+    core::mem::forget(r);
     // an unrelated search (non-overlapping and one overlapping step) ...
-    let _ = aut.try_find(&Input::new(&h1[..]).span(s1..e1)).unwrap();
+    let r = aut.try_find(&Input::new(&h1[..]).span(s1..e1).anchored(anch(a1)));
+    core::mem::forget(r);
     if C::MK == 0 {
         let mut st = OverlappingState::start();
-        aut.try_find_overlapping(&Input::new(&h1[..]).span(s1..e1), &mut st).unwrap();
+        let r = aut.try_find_overlapping(&Input::new(&h1[..]).span(s1..e1).anchored(anch(a1)), &mut st);
+        core::mem::forget(r);
     }
-    // ... must not change the answer, nor must cloning
-    let after = aut.try_find(&Input::new(&h2[..]).span(s2..e2)).unwrap();
+    // ... must not change the answer (including whether it is rejected), nor must cloning
+    let r = aut.try_find(&Input::new(&h2[..]).span(s2..e2).anchored(anch(a2)));
+    let after = key(&r);
+    core::mem::forget(r);
     assert!(fresh == after, "a search result depends on an earlier search");
     let cl = aut.clone();
-    let on_clone = cl.try_find(&Input::new(&h2[..]).span(s2..e2)).unwrap();
+    let r = cl.try_find(&Input::new(&h2[..]).span(s2..e2).anchored(anch(a2)));
+    let on_clone = key(&r);
+    core::mem::forget(r);
     assert!(fresh == on_clone, "a clone answers differently");
-    cover!(fresh.is_some(), "a match");
+    cover!(fresh.1.is_some(), "a match");
+    cover!(!fresh.0, "a rejected request");
     core::mem::forget(cl);
 }
 
@@ -1402,8 +1434,15 @@ pub fn work<C: Case, A: Automaton, const N: usize, const AN: u8, const IS_DFA: b
     let (s, e) = any_span(N);
     let a = pick_anchored::<AN>();
     count::reset();
+    #[cfg(kani)]
+    memchr::model_scanned_reset();
     let got = aut.try_find(&Input::new(&hay[..]).span(s..e).anchored(anch(a))).unwrap();
     let (tr, fl, nonmono) = count::read();
+    // prefilter work (byte scanners of the memchr contract model): every scan starts at the
+    // current position and the search then jumps to the candidate, so a byte is examined at
+    // most once as "skipped" and once per visit of the start state at it
+    #[cfg(kani)]
+    assert!(memchr::model_scanned() <= 2 * (e - s) + 2, "prefilter scanning is not linear in the span length");
     assert!(tr <= e - s, "more than one automaton transition per byte of the span");
     assert!(nonmono == 0, "the search position does not advance monotonically");
     assert!(fl <= tr, "more failure-link traversals than transitions");
@@ -1443,11 +1482,13 @@ pub fn fail_depth<C: Case, const LO: usize, const HI: usize>() {
     let raw_fail = aho_corasick::verif::nnfa::fail_and_depth;
     let i: usize = any();
     assume(i >= LO && i < HI);
-    let (fail, depth, fdepth, is_start_or_sentinel) = raw_fail(&n, i);
+    let (_fail, depth, fdepth, is_start_or_sentinel, to_root) = raw_fail(&n, i);
     if !is_start_or_sentinel {
-        assert!(fdepth < depth || fail == 0, "a failure link does not point to a strictly shallower state");
+        // recorded depth = true depth - 1 for non-start states, so between two
+        // non-start states the recorded values compare like the true ones
+        assert!(to_root || fdepth < depth, "a failure link does not point to a strictly shallower state");
     }
-    cover!(!is_start_or_sentinel && fdepth + 1 < depth, "a failure link that skips more than one level");
+    cover!(!is_start_or_sentinel && !to_root, "a failure link to a non-root state");
     core::mem::forget(n);
 }
 
